@@ -1,7 +1,7 @@
 (* Run.v — entry point used by the extracted driver and by the in-Coq
    cross-check: one case (as written by the harness) and the implementation's
    observation in, the model's observation and the spec verdicts out. *)
-From Model Require Import Str Sexp Http Cors Template Table Curly DetectRoute Jsr311 Router Options Dispatch Response Pool Registry Entity.
+From Model Require Import Str Sexp Http Cors Template Table Curly DetectRoute Jsr311 Router Options Dispatch Response Pool Registry Entity Negotiate.
 From Spec Require Import CorsSpec RouteSpec RankSpec DispatchSpec.
 
 Definition verdict (name : string) (b : bool) : sexp := Lst [A (L name); of_bool b].
@@ -706,6 +706,52 @@ Definition run_ent (c impl : sexp) : sexp :=
         Lst [ verdict "all_faithful" (forallb faithful reqs); verdict "concurrent" (negb (Z.eqb mode 0));
               verdict "history_longer_than_one" (Nat.ltb 1 (List.length reqs)) ] ].
 
+(* ---- domain "neg" (C05) ----
+   case: (qrows registered produces dflt accept trace); impl: (panicked statuses content-types decodes invoked) *)
+Definition run_neg (c impl : sexp) : sexp :=
+  let rows := map (fun r => (sx_str (sx_nth 0 r), sx_int (sx_nth 1 r))) (sx_list (sx_nth 0 c)) in
+  let qrank (s : str) : option Z := match assoc s rows with Some z => if Z.ltb z 0 then None else Some z | None => None end in
+  let reg := sx_strs (sx_nth 1 c) in
+  let produces := sx_strs (sx_nth 2 c) in
+  let dflt := sx_str (sx_nth 3 c) in
+  let accept := sx_str (sx_nth 4 c) in
+  let dummy := {| r_id := 0; r_method := []; r_rel := []; r_consumes := []; r_produces := produces;
+                  r_conds := []; r_noct := []; r_enc := None |} in
+  let admitted := matches_accept dummy (match accept with [] => L "*/*" | a => a end) in
+  let possible := entity_writer qrank reg produces dflt accept in
+  let premise := negb (Nat.eqb (List.length produces) 0) && forallb (fun p => mem p reg) produces in
+  let wellformed_q := forallb (fun r => negb (Z.ltb (snd r) 0)) rows in
+  (* the implementation's answers *)
+  let i_status := map sx_int (sx_list (sx_nth 1 impl)) in
+  let i_cts := sx_strs (sx_nth 2 impl) in
+  let i_dec := map sx_int (sx_list (sx_nth 3 impl)) in
+  let st0 := hd 0%Z i_status in
+  let ct0 := hd [] i_cts in
+  let written := Z.eqb st0 200 in
+  let same := forallb (Z.eqb st0) i_status && forallb (str_eqb ct0) i_cts in
+  let m_obs := if negb admitted then Lst [I 406; Lst []]
+               else match possible with [] => Lst [I 406; Lst []] | l => Lst [I 200; of_strs (sort_strs l)] end in
+  let i_obs := Lst [I st0; match written with true => Lst [A ct0] | false => Lst [] end] in
+  let refines := match possible, admitted with
+                 | _, false => Z.eqb st0 406
+                 | [], true => Z.eqb st0 406
+                 | l, true => written && mem ct0 l
+                 end in
+  let scope := premise && wellformed_q in
+  let cls := (if negb admitted then "router-406" else if negb premise then "outside-premise"
+              else if negb wellformed_q then "malformed-q" else match accept with [] => "no-accept" | _ => "negotiated" end)%string in
+  Lst [ Lst [of_bool refines];
+        Lst [ verdict "c05_no_panic" (Z.eqb (sx_int (sx_nth 0 impl)) 0);
+              verdict "c05_same_representation_every_time" (implb scope same);
+              verdict "c05_type_is_produced_and_registered" (implb (scope && written) (mem ct0 produces && mem ct0 reg));
+              verdict "c05_admitted_never_406" (implb (scope && admitted) written);
+              verdict "c05_best_for_accept" (implb (scope && admitted)
+                                                   (match possible with [k] => written && str_eqb ct0 k | _ => false end));
+              verdict "c05_body_decodes" (implb written (forallb (fun d => Z.eqb d 1) i_dec)) ];
+        A (L cls);
+        Lst [ verdict "in_premise" scope; verdict "admitted" admitted;
+              verdict "several_ranges" (Nat.ltb 1 (List.length (split comma accept))) ] ].
+
 Definition run_case (c impl : sexp) : sexp :=
   let dom := sx_str (sx_nth 0 c) in
   if str_eqb dom (L "cors") then run_cors (sx_nth 1 c) impl
@@ -720,4 +766,5 @@ Definition run_case (c impl : sexp) : sexp :=
   else if str_eqb dom (L "mut") then run_mut (sx_nth 1 c) impl
   else if str_eqb dom (L "reg") then run_reg (sx_nth 1 c) impl
   else if str_eqb dom (L "ent") then run_ent (sx_nth 1 c) impl
+  else if str_eqb dom (L "neg") then run_neg (sx_nth 1 c) impl
   else Lst [A (L "unknown-domain")].
